@@ -60,6 +60,9 @@ pub struct OpSpec {
 #[derive(Clone, Debug)]
 pub struct Scenario {
     pub name: &'static str,
+    /// quick tier: explored one step deeper on the polling driver (the two shapes the property
+    /// names explicitly)
+    pub deeper: bool,
     pub fds: Vec<FdKind>,
     pub ops: Vec<OpSpec>,
 }
@@ -72,25 +75,28 @@ pub fn scenarios() -> Vec<Scenario> {
     use FdKind::*;
     use OpKind::*;
     vec![
-        Scenario { name: "recv2", fds: vec![Sock], ops: vec![op(Recv, 0, 0), op(Recv, 0, 1)] },
-        Scenario { name: "recv2-one-token", fds: vec![Sock], ops: vec![op(Recv, 0, 0), op(Recv, 0, 0)] },
-        Scenario { name: "recv+pollonce", fds: vec![Sock], ops: vec![op(Recv, 0, 0), op(PollR, 0, 1)] },
-        Scenario { name: "pollonce+recv", fds: vec![Sock], ops: vec![op(PollR, 0, 0), op(Recv, 0, 1)] },
-        Scenario { name: "accept2", fds: vec![Listener], ops: vec![op(Accept, 0, 0), op(Accept, 0, 1)] },
-        Scenario { name: "piperead2", fds: vec![Pipe], ops: vec![op(Read, 0, 0), op(Read, 0, 1)] },
-        Scenario { name: "connect+pollonce", fds: vec![Blackhole], ops: vec![op(Connect, 0, 0), op(PollW, 0, 1)] },
+        Scenario { name: "recv2", deeper: true, fds: vec![Sock], ops: vec![op(Recv, 0, 0), op(Recv, 0, 1)] },
+        Scenario { name: "recv2-one-token", deeper: false, fds: vec![Sock], ops: vec![op(Recv, 0, 0), op(Recv, 0, 0)] },
+        Scenario { name: "recv+pollonce", deeper: true, fds: vec![Sock], ops: vec![op(Recv, 0, 0), op(PollR, 0, 1)] },
+        Scenario { name: "pollonce+recv", deeper: false, fds: vec![Sock], ops: vec![op(PollR, 0, 0), op(Recv, 0, 1)] },
+        Scenario { name: "accept2", deeper: false, fds: vec![Listener], ops: vec![op(Accept, 0, 0), op(Accept, 0, 1)] },
+        Scenario { name: "piperead2", deeper: false, fds: vec![Pipe], ops: vec![op(Read, 0, 0), op(Read, 0, 1)] },
+        Scenario { name: "connect+pollonce", deeper: false, fds: vec![Blackhole], ops: vec![op(Connect, 0, 0), op(PollW, 0, 1)] },
         Scenario {
             name: "recv2+piperead",
+            deeper: false,
             fds: vec![Sock, Pipe],
             ops: vec![op(Recv, 0, 0), op(Recv, 0, 1), op(Read, 1, 0)],
         },
         Scenario {
             name: "recv+pollonce+accept",
+            deeper: false,
             fds: vec![Sock, Listener],
             ops: vec![op(Recv, 0, 0), op(PollR, 0, 1), op(Accept, 1, 1)],
         },
         Scenario {
             name: "connect+recv2",
+            deeper: false,
             fds: vec![Blackhole, Sock],
             ops: vec![op(Connect, 0, 0), op(Recv, 1, 0), op(Recv, 1, 1)],
         },
@@ -157,6 +163,8 @@ impl Step {
 #[derive(Clone, Copy, Debug)]
 pub struct Bounds {
     pub depth: usize,
+    /// extra depth for scenarios marked `deeper`
+    pub deeper_bonus: usize,
     /// MakeReady steps per descriptor inside the enumerated part (the epilogue adds more)
     pub max_ready: u8,
     /// Timeout steps per sequence (each costs 3 ms of real time)
@@ -272,11 +280,13 @@ pub fn draw(sc: &Scenario, b: &Bounds, ch: &mut Chooser) -> Vec<Step> {
 
 /// All sequences of a scenario within the bounds, each with the choice list that produced it.
 pub fn enumerate(sc: &Scenario, b: &Bounds) -> Vec<(Vec<Step>, Vec<u32>)> {
+    let b = &Bounds { depth: b.depth + sc.deeper as usize * b.deeper_bonus, ..*b };
     let mut out = Vec::new();
     vcore::explore(0, u64::MAX, |ch| {
         let seq = draw(sc, b, ch);
-        // a sequence that never submits anything exercises nothing of compio
-        if seq.iter().any(|s| *s == Step::Submit) {
+        // a sequence that never submits anything exercises nothing of compio; a trailing Harvest is
+        // exactly what the final verdict does anyway (same execution as the sequence without it)
+        if seq.iter().any(|s| *s == Step::Submit) && seq.last() != Some(&Step::Harvest) {
             out.push((seq, ch.choices()));
         }
         true
